@@ -5,6 +5,7 @@ import Hyeong.Props.C06
 #print axioms HyN.C06.flip_exact
 #print axioms HyN.C06.flip_zero_nan
 #print axioms HyN.C06.floor_exact
+#print axioms HyN.C06.floor_trunc
 #print axioms HyN.C06.isPos_iff
 #print axioms HyN.C06.canon_eq_iff
 #print axioms HyN.C06.optimize_exact
